@@ -37,6 +37,8 @@ struct World {
     config_path: Option<String>,
     next_id: usize,
     aliases: Vec<gen::AliasDef>,
+    /// (path of the Rojo sourcemap, version) when requires are converted through one
+    sourcemap: Option<(String, u32)>,
 }
 
 impl World {
@@ -215,7 +217,10 @@ pub fn generate(seed: u64, knobs: &Knobs) -> C10Scenario {
             project.input = project.sources[0].path.clone();
         }
     }
-    let parts = gen::gen_config_parts(&mut rc, project.bundle.as_deref());
+    let mut parts = gen::gen_config_parts(&mut rc, project.bundle.as_deref());
+    if project.convert {
+        parts.convert_sourcemap = Some("sourcemap.json".to_owned());
+    }
     let config_text = parts.to_text();
     let mut invocation = gen::gen_invocation(
         &mut rk,
@@ -227,6 +232,22 @@ pub fn generate(seed: u64, knobs: &Knobs) -> C10Scenario {
     );
     if knobs.layer != Layer::L1 {
         invocation.opts.generator_override = None;
+    }
+    let mut sourcemap: Option<(String, u32)> = None;
+    if project.convert && !graph_mode {
+        let config_path = invocation
+            .extra_entries
+            .iter()
+            .find(|e| matches!(&e.body, Body::Text(t) if *t == config_text))
+            .map(|e| e.path.clone())
+            .unwrap_or_else(|| ".darklua.json".to_owned());
+        let sourcemap_path = gen::join(gen::parent(&config_path), "sourcemap.json");
+        let paths: Vec<String> = project.sources.iter().map(|s| s.path.clone()).collect();
+        invocation.extra_entries.push(FsEntry {
+            path: sourcemap_path.clone(),
+            body: Body::Text(gen::render_sourcemap(&paths, &sourcemap_path, "Project")),
+        });
+        sourcemap = Some((sourcemap_path, 0));
     }
     let mut include_deps: Option<std::collections::BTreeMap<String, Vec<String>>> = None;
     if graph_mode {
@@ -302,6 +323,7 @@ pub fn generate(seed: u64, knobs: &Knobs) -> C10Scenario {
         },
         next_id: 0,
         aliases: if top_level_entry { Vec::new() } else { project.aliases.clone() },
+        sourcemap,
     };
     if project.input_is_file {
         world.sources.push(mk(&project.sources[0]));
@@ -366,6 +388,15 @@ pub fn generate(seed: u64, knobs: &Knobs) -> C10Scenario {
         }
     }
 
+    // open finding D16: with convert_require a required file that appears later does not
+    // regenerate its requirers; most runs do not make required files disappear and come back
+    let keep_required = world.sourcemap.is_some() && avoid("convert-missing-created");
+    let is_required = |world: &World, path: &str| -> bool {
+        world
+            .all_lua()
+            .iter()
+            .any(|s| s.requires.iter().any(|r| r == path || r.starts_with(&format!("{}/", path))))
+    };
     // ---- the history
     let n_ops = match rh.below(10) {
         0..=3 => rh.range(1, 3),
@@ -405,6 +436,20 @@ pub fn generate(seed: u64, knobs: &Knobs) -> C10Scenario {
                 new_ops.push(Op::Edit {
                     path: s.path,
                     body: Body::Text(body),
+                });
+            }
+            22..=29 if world.sourcemap.is_some() && rh.chance(1, 2) => {
+                // the Rojo sourcemap changes (an instance gets another name): every file
+                // whose requires were converted through it must be generated again
+                let (path, version) = world.sourcemap.clone().unwrap();
+                let version = version + 1;
+                world.sourcemap = Some((path.clone(), version));
+                let paths: Vec<String> = world.sources.iter().map(|s| s.path.clone()).collect();
+                let text = gen::render_sourcemap(&paths, &path, &format!("Project_v{}", version))
+                    .replace("\"className\":\"Folder\",\"children\":[{\"name\":\"", &format!("\"className\":\"Folder\",\"children\":[{{\"name\":\"v{}_", version));
+                new_ops.push(Op::Edit {
+                    path,
+                    body: Body::Text(text),
                 });
             }
             22..=29 => {
@@ -541,6 +586,7 @@ pub fn generate(seed: u64, knobs: &Knobs) -> C10Scenario {
                 let path = world.sources[i].path.clone();
                 if new_ops.iter().any(|o| matches!(o, Op::Edit { path: p, .. } if *p == path))
                     || protected.contains(&path)
+                    || (keep_required && is_required(&world, &path))
                 {
                     continue;
                 }
@@ -558,7 +604,9 @@ pub fn generate(seed: u64, knobs: &Knobs) -> C10Scenario {
                     continue;
                 }
                 let dir = rh.pick(&dirs).clone();
-                if protected.iter().any(|p| p.starts_with(&format!("{}/", dir))) {
+                if protected.iter().any(|p| p.starts_with(&format!("{}/", dir)))
+                    || (keep_required && is_required(&world, &dir))
+                {
                     continue;
                 }
                 let remaining = world
@@ -597,7 +645,7 @@ pub fn generate(seed: u64, knobs: &Knobs) -> C10Scenario {
                 }
                 let i = rh.below(world.sources.len());
                 let from = world.sources[i].path.clone();
-                if protected.contains(&from) {
+                if protected.contains(&from) || (keep_required && is_required(&world, &from)) {
                     continue;
                 }
                 let to = gen::join(
@@ -615,7 +663,19 @@ pub fn generate(seed: u64, knobs: &Knobs) -> C10Scenario {
             71..=84 => {
                 // configuration change
                 let mut parts = world.config.clone();
-                match rh.below(8) {
+                match rh.below(9) {
+                    8 => {
+                        // only a property of convert_require changes
+                        if parts.convert_sourcemap.is_some() {
+                            parts.convert_indexing = match parts.convert_indexing.as_deref() {
+                                None => Some("wait_for_child".to_owned()),
+                                Some("wait_for_child") => Some("property".to_owned()),
+                                _ => None,
+                            };
+                        } else {
+                            parts.rules = gen::gen_rules(&mut rh);
+                        }
+                    }
                     7 => {
                         // switch the bundle require mode (nothing else changes)
                         match parts.bundle.as_deref() {
@@ -737,7 +797,7 @@ pub fn generate(seed: u64, knobs: &Knobs) -> C10Scenario {
                 }
                 let i = rh.below(world.sources.len());
                 let path = world.sources[i].path.clone();
-                if protected.contains(&path) {
+                if protected.contains(&path) || (keep_required && is_required(&world, &path)) {
                     continue;
                 }
                 let mirror = match path.strip_prefix(&format!("{}/", world.input)) {
@@ -770,7 +830,7 @@ pub fn generate(seed: u64, knobs: &Knobs) -> C10Scenario {
             }
             95 => {
                 // a file that is required but missing (removed or renamed away) comes back
-                if world.config.bundle.is_none() {
+                if world.config.bundle.is_none() || keep_required {
                     continue;
                 }
                 let existing: BTreeSet<String> =
@@ -808,7 +868,9 @@ pub fn generate(seed: u64, knobs: &Knobs) -> C10Scenario {
                     continue;
                 }
                 let i = rh.below(world.sources.len());
-                if protected.contains(&world.sources[i].path) {
+                if protected.contains(&world.sources[i].path)
+                    || (keep_required && is_required(&world, &world.sources[i].path))
+                {
                     continue;
                 }
                 let mut s = world.sources[i].clone();
